@@ -128,6 +128,15 @@ def split_line(out, prop, between, after):
     return body
 
 
+def raw_text(body):
+    """what a raw body prints: line breaks (CR, LF, CRLF) become the configured newline (default "\\n", no base indent); a
+    trailing line break does not start another line"""
+    lines = re.split(r'\r\n|\r|\n', body)
+    if lines and lines[-1] == '':
+        lines.pop()
+    return '\n'.join(lines)
+
+
 def key_oracle(table, key, cfg, r):
     """expand(key) under cfg (tabstop field) against the raw text of table[key]; None or a description"""
     if r[0] != 'ok':
@@ -135,11 +144,11 @@ def key_oracle(table, key, cfg, r):
     out = r[1]
     between, after = BETWEEN_AFTER[cfg.syntax]
     kind = classify(table[key])
-    raws = [v for v in table.values() if classify(v)[0] == 'raw']
+    raws = [raw_text(v) for v in table.values() if classify(v)[0] == 'raw']
     scope = cfg.context
     if scope == '@@section':
         if kind[0] == 'raw':
-            return None if out == kind[1] else 'raw snippet: expected its body %r, got %r' % (kind[1], out)
+            return None if out == raw_text(kind[1]) else 'raw snippet: expected its body %r, got %r' % (kind[1], out)
         if out == '' or out in raws:
             return None
         return '@@section scope produced %r, which is not a raw snippet' % (out,)
@@ -149,7 +158,7 @@ def key_oracle(table, key, cfg, r):
                 return None
             return '@@property scope produced %r, which is not a property line' % (out,)
     if kind[0] == 'raw':
-        return None if out == kind[1] else 'raw snippet: expected its body %r, got %r' % (kind[1], out)
+        return None if out == raw_text(kind[1]) else 'raw snippet: expected its body %r, got %r' % (kind[1], out)
     _, prop, alts = kind
     val = split_line(out, prop, between, after)
     if val is None:
@@ -183,7 +192,8 @@ def rand_user_table(rng, base):
     props = ['margin', 'foo-bar', 'x-y-z', 'color', 'grid-area', 'my-prop']
     values = ['', 'auto', 'a|b|c', '${1:x} ${2:y}', 'none|${1:some}', 'url(${0})', 'f(${1:a}, ${2:b})|g()', '10px', '#${1:fff}',
               '"q r"', 'a b c|d', 'inherit|initial|unset']
-    bodies = ['x ${1} y ${2:z}', '@rule ${1:name} {\n\t${0}\n}', '/* ${0} */', 'foo(${1:a}) bar', 'plain text', '${1:only}']
+    bodies = ['x ${1} y ${2:z}', '@rule ${1:name} {\n\t${0}\n}', '/* ${0} */', 'foo(${1:a}) bar', 'plain text', '${1:only}',
+              'form\x0cfeed ${1}', 'ls\u2028ps\u2029 ${1:x}\x0b\x85y', 'cr\rlf\r\nend']
     keys = list(base)
 
     def rand_snip():
